@@ -130,3 +130,29 @@ def key_fn(kind, ex, idx, observed):
             if observed.get(flag) is False:
                 parts.append("not-" + flag)
     return ":".join(parts)
+
+
+def with_periods(rng, ex):
+    """The same execution with MemoryLeakDetector period switches (disable / enable / startChecking) interleaved: SetPeriod of LeakBlocks
+    changes no variable, so every later answer must be what it is without the switch."""
+    out = [L("period", var=rng.choice(["disabled", "enabled", "checking"]))] if rng.random() < 0.6 else []
+    for l in ex:
+        if rng.random() < 0.12:
+            out.append(L("period", var=rng.choice(["disabled", "disabled", "enabled", "checking"])))
+        out.append(l)
+    return out
+
+
+def mode_legs(ctx, conform, exe, execs, tcfg, pcfg, chunk=4000):
+    """Re-runs executions (1) through the thread-safe operator new/delete overloads, (2) with detector period switches interleaved.
+    Same specification: one meaning per entry point, whichever overloads are installed and whatever the detector's period."""
+    run_ts = lambda s, l: ctx.run([exe, s, l, str(CAP), "ts"], timeout=900)
+    run_h = lambda s, l: ctx.run([exe, s, l, str(CAP)], timeout=900)
+    for i in range(0, len(execs), chunk):
+        conform(ctx, "threadsafe%d" % (i // chunk), execs[i:i + chunk], run_ts, "Trace_LeakBlocks", tcfg, pcfg, lambda *a: "ts:" + key_fn(*a), tlc_timeout=1800,
+                meta={"mode": "ts"})
+    pe = [with_periods(ctx.rng, e) for e in execs]
+    for i in range(0, len(pe), chunk):
+        conform(ctx, "periods%d" % (i // chunk), pe[i:i + chunk], run_h, "Trace_LeakBlocks", tcfg, pcfg, lambda *a: "period:" + key_fn(*a), tlc_timeout=1800)
+    ctx.evaluations += sum(len(e) for e in execs) + sum(len(e) for e in pe)
+    return len(execs) + len(pe)
